@@ -1,7 +1,7 @@
 (* C08 — decoders are total: no panic, no hang, bounded memory. What is
    proved concerns the logic of the models (DESIGN.md: the Go allocator, GC
    and wall time are measured by the harness, not proved). *)
-From V Require Import Base.Prelude Base.Prog Flate.Spec Flate.Safe Brotli.Spec Brotli.Safe XFlate.Index XFlate.Reader XFlate.Thms Life.ReadLoop Flate.Safe Flate.Fuel.
+From V Require Import Base.Prelude Base.Prog Flate.Spec Flate.Safe Brotli.Spec Brotli.Safe XFlate.Index XFlate.Reader XFlate.Thms Life.ReadLoop Flate.Safe Flate.Fuel Brotli.Fuel Bzip2.Common Bzip2.SpecR Bzip2.Safe.
 
 (* the index record loop appends at most |payload|/2 records, whatever
    record count the index declares (repair D3) *)
@@ -68,3 +68,27 @@ Theorem flate_decoder_terminates_without_panic : forall input,
   end.
 Proof. exact inflate_total. Qed.
 Print Assumptions flate_decoder_terminates_without_panic.
+
+(* TOTALITY of the RFC 7932 decoder model, for every static dictionary and every input:
+   success, UnexpectedEOF or Corrupted - never a panic (window copy out of range), never an
+   exhausted loop budget. The command loop needs a real argument: a command may consume no
+   input bit at all, progress then lies in the bytes it produces, and a dictionary word can
+   be empty only for transforms that a zero-bit distance cannot reach (invariant: the last
+   distances never exceed max 16 (min window bytes_produced)). *)
+Theorem brotli_decoder_terminates_without_panic : forall dict input,
+  match br_err (brotli_decode dict input) with
+  | None => True
+  | Some e => e = EUEOF \/ e = ECorrupted
+  end.
+Proof. exact brotli_decode_total. Qed.
+Print Assumptions brotli_decoder_terminates_without_panic.
+
+(* TOTALITY of the bzip2 decoder model (libbzip2 port): on every input success,
+   UnexpectedEOF, Corrupted or Deprecated (bzip1 header, block randomisation) *)
+Theorem bzip2_decoder_terminates : forall input,
+  match bz_err (bzip2_decode input) with
+  | None => True
+  | Some e => e = EUEOF \/ e = ECorrupted \/ e = EDeprecated
+  end.
+Proof. exact bzip2_decode_total. Qed.
+Print Assumptions bzip2_decoder_terminates.
